@@ -198,19 +198,55 @@ func init() {
 		},
 	})
 
+	// Sacramento, wet-regime stress variant (oracle only, see sacParamsWet)
+	regModel(&ModelGen{Name: "Sacramento#wet",
+		Params: sacParamsWet,
+		Inputs: func(r *Rng, T int, p []float64) [][]float64 {
+			if i := sacRegressionIndex(p); i >= 0 {
+				c := sacRegression[i]
+				return [][]float64{append([]float64{}, c.rain...), append([]float64{}, c.pet...)}
+			}
+			if T < 12 {
+				T = 12 + T
+			}
+			return sacWetSeries(r, T)
+		},
+		States: func(r *Rng, p []float64) []float64 {
+			if sacRegressionIndex(p) >= 0 {
+				return make([]float64, 6)
+			}
+			return warmState(r, "Sacramento", p, r.Range(1, 60))
+		},
+	})
+
 	// Sacramento: OW-SPEC ranges, capacities at least a few mm (the code divides by lztwm, alzfpm, alzfsm, uzfwm),
 	// pctim + adimp ≤ 1 (area fractions), at least one positive unit-hydrograph proportion.
 	regModel(&ModelGen{Name: "Sacramento",
 		Params: sacParams,
 		Inputs: func(r *Rng, T int, p []float64) [][]float64 {
+			if i := sacRegressionIndex(p); i >= 0 {
+				c := sacRegression[i]
+				return [][]float64{append([]float64{}, c.rain...), append([]float64{}, c.pet...)}
+			}
 			if p[5] <= 15 && p[2] <= 0.05 && T >= 8 && r.Chance(0.8) {
 				return sacStressSeries(r, T)
 			}
-			return RainPet(r, T)
+			// PET limited to 25 mm/day (above any observed daily value): with a demand of several hundred mm/day
+			// the ADIMP evaporation term e5 goes strongly negative (reported as an observation, see checks/C10.py)
+			in := RainPet(r, T)
+			for i, v := range in[1] {
+				if v > 25 {
+					in[1][i] = 25
+				}
+			}
+			return in
 		},
 		// "initial states produced by the model itself": the final state of a warm-up run of the real model from
 		// its own initial state, same parameters, another series (wet or dry spell)
 		States: func(r *Rng, p []float64) []float64 {
+			if sacRegressionIndex(p) >= 0 {
+				return make([]float64, 6)
+			}
 			return warmState(r, "Sacramento", p, r.Range(1, 60))
 		},
 	})
@@ -235,13 +271,73 @@ func sacStressSeries(r *Rng, T int) [][]float64 {
 	return [][]float64{rain, pet}
 }
 
+// sacWetSeries: long very wet spells (80-300 mm/day) separated by short dry spells, moderate PET.
+func sacWetSeries(r *Rng, T int) [][]float64 {
+	rain := make([]float64, T)
+	pet := ConstSeries(T, r.Uniform(2, 8))
+	wet := r.Range(6, 12)
+	dry := r.Range(2, 4)
+	for i := 0; i < T; i++ {
+		if i%(wet+dry) < wet {
+			rain[i] = r.Uniform(80, 300)
+		}
+	}
+	return [][]float64{rain, pet}
+}
+
 // warmState runs the real model from its own initial state over a drawn series and returns the final state row.
 func warmState(r *Rng, model string, p []float64, T int) []float64 {
 	k := &KCall{Model: model, Init: true, P: p, In: RainPet(r, T)}
 	return k.Run().S
 }
 
+// Minimal failing inputs of the two Sacramento defects found by this property (pre-fix code), kept as fixed cases:
+// from the model's own empty initial state.
+//
+//	[0] fixes/sacramento-adimp-ratio.diff: imperviousRunoff = NaN on day 13/14
+//	[1] fixes/sacramento-fracp-clamp.diff: 10.28 mm of water created in 13 days
+var sacRegression = []struct {
+	p         []float64
+	rain, pet []float64
+}{
+	{[]float64{0.01, 0.05, 0.01, 60, 75, 5, 25, 60, 0.06, 1, 40, 0, 0, 0.01, 0.1, 0, 0.3, 0.8, 0.1, 0.05, 0.03, 0.02},
+		[]float64{100, 100, 100, 0, 0, 0, 0, 0, 0, 0, 0, 0, 0, 150, 150}, ConstSeries(15, 10)},
+	{[]float64{0.2, 0.01, 0.3, 50, 40, 130, 5, 400, 0.5, 2, 60, 0, 0, 0.01, 0, 0, 0.3, 0.8, 0.1, 0.05, 0.03, 0.02},
+		[]float64{150, 150, 150, 150, 150, 150, 150, 150, 0, 0, 0, 0, 0}, ConstSeries(13, 4)},
+}
+
+func sacRegressionIndex(p []float64) int {
+	for i, c := range sacRegression {
+		same := len(p) == len(c.p)
+		for j := 0; same && j < len(p); j++ {
+			same = p[j] == c.p[j]
+		}
+		if same {
+			return i
+		}
+	}
+	return -1
+}
+
+// sacParamsWet: small, slowly draining supplemental store beside a large, faster draining primary store, generous
+// percolation: the regime in which the primary share hpl*2*ratlp/(ratlp+ratls) of the free-water percolation exceeds
+// one (fixes/sacramento-fracp-clamp.diff). In this regime the supplemental store (5-7 mm) receives increments of
+// ~2 mm with a feedback gain of about -7 per increment: the iteration is numerically ill-conditioned (ulp differences
+// between Go's math.Pow and libm grow to 1e-5 within one wet day), so these cases are used for the property oracle
+// only (family KORACLE), not for the 1e-9 correspondence.
+func sacParamsWet(r *Rng) []float64 {
+	if r.Chance(0.1) {
+		return append([]float64{}, sacRegression[1].p...)
+	}
+	return []float64{r.Uniform(0.1, 0.4), r.Uniform(0.002, 0.03), r.Uniform(0.2, 0.9), r.Uniform(40, 100), r.Uniform(50, 75),
+		r.Uniform(100, 300), r.Uniform(5, 7), r.Uniform(250, 600), r.Uniform(0.3, 0.6), r.Uniform(1, 3), r.Uniform(50, 80),
+		0, 0, r.Uniform(0, 0.2), r.Uniform(0, 0.1), r.Uniform(0, 0.25), r.Uniform(0.1, 0.6), 0.45, 0, 0.14, 0, 0.04}
+}
+
 func sacParams(r *Rng) []float64 {
+	if r.Chance(0.03) {
+		return append([]float64{}, sacRegression[0].p...)
+	}
 	frac := func() float64 {
 		switch r.Intn(12) {
 		case 0:
